@@ -69,6 +69,10 @@ func aolListings(p *Prog, r *Report, m *aolModel, clause string) {
 		o := NewOrigin(p, fn)
 		fa := NewFacts(p, fn, o)
 		pag := findCalls(fn, "sdk/types/query.Paginate")
+		filtered := false
+		if fp := findCalls(fn, "sdk/types/query.FilteredPaginate"); len(pag) == 0 && len(fp) > 0 {
+			pag, filtered = fp, true
+		}
 		if len(pag) == 0 {
 			// single-item view: Has(K) guards Get(K); K's components come from request fields; response carries the Get
 			calls := m.accessorCalls(fn, o)
@@ -193,6 +197,7 @@ func aolListings(p *Prog, r *Report, m *aolModel, clause string) {
 		// what is appended
 		lastComp := comps[len(comps)-1]
 		found := false
+		cfa := NewFacts(p, cfn, co)
 		for _, b := range cfn.Blocks {
 			for _, in := range b.Instrs {
 				c, ok := in.(*ssa.Call)
@@ -207,6 +212,12 @@ func aolListings(p *Prog, r *Report, m *aolModel, clause string) {
 					return x.Op == "field" && x.Name == lastComp && len(x.Args) == 1 && x.Args[0].Op == "outparam"
 				}) {
 					found = true
+					if filtered {
+						// FilteredPaginate calls the callback also for entries outside the page (accumulate == false)
+						_, okAcc := cfa.DominatingFact(c, true, func(x *Term) bool { return x.Op == "param" && strings.HasPrefix(x.Name, "2:") })
+						r.Check(okAcc, kp("LIST", hn+"#appends-only-when-accumulate"), "with FilteredPaginate an item is reported only when the pager says it belongs to the page (accumulate == true)", p.Pos(c.Pos()),
+							"append dominated by accumulate", "the callback appends regardless of the accumulate flag: offset/count_total paging returns items outside the requested page")
+					}
 				}
 			}
 		}
